@@ -10,7 +10,11 @@ mod c07;
 mod cmp;
 mod c01;
 mod c02;
+mod c03;
 mod c08;
+mod datum;
+mod c12;
+mod session;
 mod c13;
 mod c19;
 
@@ -24,6 +28,10 @@ fn main() {
     // a panic in the code under test is data (caught where it matters); keep stderr quiet
     std::panic::set_hook(Box::new(|_| {}));
     let args: Vec<String> = std::env::args().collect();
+    if args.len() == 5 && args[1] == "c03-child" {
+        c03::child(&args[2], args[3].parse().expect("start index"), &args[4]);
+        return;
+    }
     if args.len() < 4 {
         eprintln!("usage: vh <command> <config.json> <out.json> [<trace.ndjson>]");
         std::process::exit(2);
@@ -40,6 +48,14 @@ fn main() {
         "c19-replay" => c19::replay_case(&cfg),
         "c13" => c13::run(&cfg),
         "c13-replay" => c13::replay_case(&cfg),
+        "session" => session::run(&cfg),
+        "session-replay" => session::replay_case(&cfg),
+        "c03" => c03::run(&cfg),
+        "c03-replay" => c03::replay_case(&cfg),
+        "c12" => c12::run(&cfg),
+        "c12-replay" => c12::replay_case(&cfg),
+        "datum" => datum::run(&cfg),
+        "datum-replay" => datum::replay_case(&cfg),
         "c01" => c01::run(&cfg),
         "c01-replay" => c01::replay_case(&cfg),
         x => {
